@@ -24,9 +24,18 @@ import lib
 import l2
 
 HEADER = ("From Coq Require Import List ZArith NArith String.\n"
-          "From Shoot Require Import Model.GoWf Model.Enum Corr.GoWfCorr.\n"
+          "From Shoot Require Import Model.GoWf Corr.GoWfCorr.\n"
           "Import ListNotations.\nLocal Open Scope string_scope.\n"
           "Set Printing Width 1000000.\nSet Printing Depth 1000000.\n")
+# the terms of each generator are written inside a Coq module that imports that generator's model
+# (constructor names such as TBasic/TPtr exist in several models)
+KIND_IMPORTS = {
+    "enum": "From Shoot Require Import Model.Enum.\nLocal Open Scope Z_scope.",
+    "new": "From Shoot Require Import Base.GoVal Model.Ctor.",
+    "map": "From Shoot Require Import Model.MapVal Model.Mapper Model.MapperSpec Corr.MapperCorr.\nLocal Open Scope list_scope.",
+    "rest": "From Shoot Require Import Model.Rest Model.RestSpec.",
+    "opaque": "",
+}
 
 
 def cs(s):
@@ -43,13 +52,15 @@ def cb(b):
 
 class Pkg:
     """one package of the stream.
-    name: directory / package name; files: {file: source} (hand-written);
-    extra: {relative path in the module: source} (sibling packages, e.g. dest);
+    name: Go package name; dir: directory of the package relative to the module (where shoot runs);
+    files: {file name inside dir: source} (hand-written);
+    extra: {path relative to the module: source} (sibling packages: dest, helper, ...);
     runs: [(args, [coq gdata terms of the types generated for])];
     features: set of strings for the evidence"""
 
-    def __init__(self, name, files, runs, features=(), extra=None, subcmd=None):
+    def __init__(self, name, files, runs, features=(), extra=None, subcmd=None, dir=None):
         self.name, self.files, self.runs = name, files, runs
+        self.dir = dir or name
         self.features, self.extra = set(features), dict(extra or {})
         self.subcmd = subcmd or runs[0][0][0]
 
@@ -68,26 +79,121 @@ def enum_stream(run, n, bit_ok):
         runs = []
         byname = {t.tname: t for t in spec.targets}
         for args, types in spec.runs:
-            data = ["GEnumSpec %s %s %s" % (enumgen.coq_pkg(spec), cs(T), enumgen.coq_flags(byname[T].flags))
+            data = [("enum", "GEnumSpec %s %s %s" % (enumgen.coq_pkg(spec), cs(T), enumgen.coq_flags(byname[T].flags)))
                     for T in types]
             runs.append((args, data))
         res.append(Pkg(spec.name, enumgen.render_go(spec), runs, spec.features | {"cmd-enum"}))
     return res
 
 
-STREAMS = {"enum": enum_stream}
-try:                     # richer generators of the other checks, when present
-    import c01_streams   # noqa: F401  (registers new / rest / map streams in STREAMS)
-except ImportError:
-    pass
+NEW_FLAGS = ["-getset", "-json", "-opt", "-short", "-exp", "-tagcase=pascal", "-tagcase=upper"]
+
+
+def new_stream(run, n, bit_ok):
+    """struct packages of harness/ctorgen.py x sampled subsets of the `new` flags x the three selection modes"""
+    import ctorgen
+    rng = run.rng
+    res = []
+    for k in range(n):
+        name = "n%03d" % k
+        pkg = ctorgen.gen_struct_pkg(rng, name, getset_dirs=rng.random() < 0.5)
+        flags = [f for f in NEW_FLAGS if rng.random() < 0.3]
+        if "-short" in flags and "-opt" not in flags:
+            flags.append("-opt")
+        if sum(f.startswith("-tagcase") for f in flags) > 1:
+            flags.remove("-tagcase=upper")
+        tnames = [sd["name"] for sd in pkg["structs"]]
+        mode = rng.choice(["single", "list", "file", "star"])
+        files = dict(ctorgen.render_go(pkg, "c01mod"))
+        fname = list(files)[0]
+        if mode == "single":
+            sel, types = ["-type=" + tnames[-1]], [tnames[-1]]
+        elif mode == "list":
+            ts = list(tnames)
+            rng.shuffle(ts)
+            ts = ts[:rng.randint(1, len(ts))]
+            sel, types = ["-type=" + ",".join(ts)], ts
+        elif mode == "file":
+            sel, types = ["-file=" + fname], tnames
+        else:
+            sel, types = ["-type=*"], tnames
+            files[fname] = files[fname].replace("\n\n", "\n\n//go:generate shoot new %s\n\n" % " ".join(flags + sel), 1)
+        if "-short" in flags and len(types) > 1:
+            # K_opt_short_collision (open): option names are shared by the types of one run
+            flags = [f for f in flags if f != "-short"]
+            if mode == "star":
+                files = dict(ctorgen.render_go(pkg, "c01mod"))
+                files[fname] = files[fname].replace("\n\n", "\n\n//go:generate shoot new %s\n\n" % " ".join(flags + sel), 1)
+        fl = ("{| fl_getset := %s; fl_json := %s; fl_tagcase := TagCamel; fl_opt := %s; "
+              "fl_exp := %s; fl_short := %s |}" % (cb("-getset" in flags), cb("-json" in flags),
+                                                 cb("-opt" in flags), cb("-exp" in flags), cb("-short" in flags)))
+        cpkg = ctorgen.coq_pkg(pkg)
+        data = [("new", "GNewSpec %s %s 8 %s" % (cpkg, fl, cs(T))) for T in types]
+        feats = {"cmd-new", "new-mode-" + mode} | {"new" + f.split("=")[0] for f in flags}
+        res.append(Pkg(name, files, [(["new"] + flags + sel, data)], feats,
+                       extra={"helper/helper.go": ctorgen.HELPER_GO}))
+    return res
+
+
+def rest_stream(run, n, bit_ok):
+    import restgen
+    rng = run.rng
+    res = []
+    for k in range(max(1, n // 3)):
+        name = "r%03d" % k
+        pkg = restgen.gen_iface_pkg(rng, name, n_ifaces=rng.randint(1, 3))
+        files = restgen.render_go(pkg, "c01mod")
+        own = {p.split("/", 1)[1]: t for p, t in files.items() if p.startswith(name + "/")}
+        extra = {p: t for p, t in files.items() if not p.startswith(name + "/")}
+        inames = [i["name"] for i in pkg["ifaces"]]
+        mode = rng.choice(["list", "file", "star", "single"])
+        fname = list(own)[0]
+        if mode == "single":
+            sel, types = ["-type=" + inames[0]], inames[:1]
+        elif mode == "list":
+            sel, types = ["-type=" + ",".join(inames)], inames
+        elif mode == "file":
+            sel, types = ["-file=" + fname], inames
+        else:
+            sel, types = ["-type=*"], inames
+            own[fname] = own[fname].replace("\n\n", "\n\n//go:generate shoot rest -type=*\n\n", 1)
+        byname = {i["name"]: i for i in pkg["ifaces"]}
+        data = [("rest", "GRestSpec %s {| rd_type := %s; rd_methods := %s |}" % (
+            clist(restgen.coq_mspec(m, pkg) for m in byname[T]["methods"]), cs(T),
+            clist(cs(m["name"]) for m in byname[T]["methods"]))) for T in types]
+        res.append(Pkg(name, own, [(["rest"] + sel, data)], {"cmd-rest", "rest-mode-" + mode}, extra=extra))
+    return res
+
+
+def map_stream(run, n, bit_ok):
+    import mapgen
+    rng = run.rng
+    res = []
+    for k in range(n):
+        sub = "m%03d" % k
+        spec = mapgen.gen_pair(rng)
+        files = mapgen.render_go(spec, "c01mod", sub)
+        own = {p.split("/")[-1]: t for p, t in files.items() if p.startswith(sub + "/src/")}
+        extra = {p: t for p, t in files.items() if not p.startswith(sub + "/src/")}
+        extra["common/common.go"] = mapgen.COMMON_GO
+        args = mapgen.shoot_args(spec)
+        to_name, from_name = mapgen.method_names(spec)
+        key = spec["flags"]["alias"] or "dest"
+        way = spec["flags"]["way"]
+        ps = mapgen.render_coq_pair(spec)
+        data = [("map", "GMapSpec %s {| md_type := %s; md_destpkg := %s; md_to := %s; md_from := %s |}" % (
+            ps, cs(j["src"]), cs(key), cb(way != "fromonly"), cb(way != "toonly"))) for j in spec["jobs"]]
+        res.append(Pkg("src", own, [(args, data)], {"cmd-map", "map-way-" + way}, extra=extra, dir=sub + "/src"))
+    return res
+
+
+STREAMS = {"enum": enum_stream, "new": new_stream, "rest": rest_stream, "map": map_stream}
 
 
 # ------------------------------------------------------------------ running
 def run_pkg(shoot, mod, pkg):
     """execute all runs of one package; returns per run a dict"""
-    d = mod / pkg.name
-    l2.write_files(d, pkg.files)
-    l2.write_files(mod, pkg.extra)
+    d = mod / pkg.dir
     obs = []
     for args, data in pkg.runs:
         before = l2.snapshot(d)
@@ -129,15 +235,30 @@ def coq_case(pkg, o, sigs, d, build_ok, gofmt_ok, bit_fixed, data):
                 cs(pkg.name), clist(cs(t) for t in hand_tops),
                 clist("(%s, %s)" % (cs(a), cs(b)) for a, b in hand_meths),
                 clist("(%s, %s)" % (cs(a), cs(b)) for a, b in fields),
-                clist(cs(a) for a in o["args"]), clist(data), cb(bit_fixed), cb(o["rc"] == 0),
+                clist(cs(a) for a in o["args"]), "@DATA@", cb(bit_fixed), cb(o["rc"] == 0),
                 clist(files), cb(gofmt_ok), cb(build_ok)))
 
 
-def evaluate(run, rendered, shard=60):
+def evaluate(run, rendered, shard=40):
+    """rendered: [(case term with %(data)s placeholder, [(kind, data term)])]"""
     def one(k):
         lo = k * shard
-        body = (HEADER + "Definition cases : list case := [\n%s\n].\n"
-                "Definition M := Eval vm_compute in mismatches cases.\nPrint M.\n" % ";\n".join(rendered[lo:lo + shard]))
+        part = rendered[lo:lo + shard]
+        mods = {}
+        cases = []
+        for i, (term, data) in enumerate(part):
+            names = []
+            for j, (kind, dterm) in enumerate(data):
+                nm = "d%d_%d" % (i, j)
+                mods.setdefault(kind, []).append("Definition %s : gdata := %s." % (nm, dterm))
+                names.append("D%s.%s" % (kind, nm))
+            cases.append(term.replace("@DATA@", clist(names)))
+        body = HEADER
+        for kind, defs in sorted(mods.items()):
+            body += "Module D%s.\n%s\nImport ListNotations.\nLocal Open Scope string_scope.\n%s\nEnd D%s.\n" % (
+                kind, KIND_IMPORTS[kind], "\n".join(defs), kind)
+        body += ("Definition cases : list case := [\n%s\n].\n"
+                 "Definition M := Eval vm_compute in mismatches cases.\nPrint M.\n" % ";\n".join(cases))
         out = run.coq_eval("c01_%d" % k, body)
         return [(lo + i, v) for i, v in lib.parse_coq_list_pairs(out, "M")]
     res = []
@@ -155,6 +276,10 @@ COMPONENT = {0: "-", 1: "declared names of the written files differ from the mod
 def exercise(run, shoot, declsig, pkgs, bit_fixed, modname="c01mod"):
     """returns (cases, rendered, obs)"""
     mod = l2.make_module(run, modname)
+    # every source first (shared sibling packages are read by goimports of concurrent runs), then the runs
+    for pkg in pkgs:
+        l2.write_files(mod / pkg.dir, pkg.files)
+        l2.write_files(mod, pkg.extra)
     with cf.ThreadPoolExecutor(max_workers=6) as ex:
         allobs = list(ex.map(lambda p: run_pkg(shoot, mod, p), pkgs))
     ok, errs = l2.go_build(mod)
@@ -162,9 +287,10 @@ def exercise(run, shoot, declsig, pkgs, bit_fixed, modname="c01mod"):
     sigs = declsigs(declsig, gofiles)
     cases, rendered = [], []
     for pkg, obs in zip(pkgs, allobs):
-        d = mod / pkg.name
-        berr = [e for k, e in errs.items() if k.endswith("/" + pkg.name) or k == "?" ]
-        build_ok = ok or not any(k.endswith("/" + pkg.name) for k in errs)
+        d = mod / pkg.dir
+        imp = "%s/%s" % (mod.name, pkg.dir)
+        berr = [e for k, e in errs.items() if k == imp or k == "?"]
+        build_ok = ok or imp not in errs
         if "?" in errs:
             build_ok = False
         for o, (args, data) in zip(obs, pkg.runs):
@@ -172,41 +298,73 @@ def exercise(run, shoot, declsig, pkgs, bit_fixed, modname="c01mod"):
             case = {"pkg": pkg, "obs": o, "build_ok": build_ok, "gofmt_ok": gofmt_ok,
                     "build_errors": [l for e in berr for l in e][:12]}
             cases.append(case)
-            rendered.append(coq_case(pkg, o, sigs, d, build_ok, gofmt_ok, bit_fixed, data))
+            rendered.append((coq_case(pkg, o, sigs, d, build_ok, gofmt_ok, bit_fixed, data), list(data)))
     return cases, rendered, mod
 
 
 # ------------------------------------------------------------------ findings
-def witness_handler(run, shoot):
-    """generic replay of a finding witness {pkg|files, cmd[, dir]}: 'buggy' if the run or the build of
-    what it wrote fails (or panics / times out), 'correct' if exit 0 and the package compiles"""
-    n = [0]
+def witness_layout(w, k):
+    """-> (files relative to the module, [(directory, args)] in execution order) or None when the recorded
+    witness is prose rather than sources (then the finding is replayed by its own property's check only)"""
+    d = "w%02d" % k
+    if isinstance(w.get("files"), dict) and "cmd" in w:
+        files = {"%s/%s" % (d, p): t for p, t in w["files"].items()}
+        return files, [("%s/%s" % (d, w.get("dir", ".")), shlex.split(w["cmd"].split(";")[0])[1:])]
+    if isinstance(w.get("pkg"), str) and "cmd" in w and re.match(r"package \w+\n", w["pkg"]):
+        name = re.match(r"package (\w+)", w["pkg"]).group(1)
+        cmd = w["cmd"].split(";")[0].split("(")[0].strip()
+        return {"%s/%s/a.go" % (d, name): w["pkg"]}, [("%s/%s" % (d, name), shlex.split(cmd)[1:])]
+    if "src" in w and "dest" in w and "args" in w:
+        files = {d + "/src/src.go": w["src"].replace('"vmod/', '"c01wit/' + d + "/"),
+                 d + "/dest/dest.go": w["dest"].replace('"vmod/', '"c01wit/' + d + "/")}
+        if "common" in w:
+            files[d + "/common/common.go"] = w["common"]
+        steps = []
+        if w.get("pre"):
+            steps.append((d + "/dest", list(w["pre"])))
+        steps.append((d + "/src", list(w["args"])))
+        return files, steps
+    return None
 
-    def h(entry):
-        w = entry["witness"]
-        n[0] += 1
-        mod = l2.make_module(run, "c01w%d" % n[0])
-        files = w.get("files") or {"w/a.go": w["pkg"].replace("package e\n", "package w\n", 1)}
-        l2.write_files(mod, files)
-        wd = mod / w.get("dir", "w")
-        args = shlex.split(w["cmd"])[1:]
-        r = l2.run_shoot(shoot, wd, args, timeout=20)
-        if r["timed_out"] or r["panicked"]:
-            return "buggy"
-        if r["rc"] != 0:
-            return "buggy" if w.get("buggy_is_nonzero_exit", True) else "correct"
-        ok, errs = l2.go_build(mod)
-        return "correct" if ok else "buggy"
-    return h
+
+def replay_witnesses(run, shoot):
+    """all findings that list C01 and carry sources: one module, one go build; returns {id: outcome}"""
+    mod = l2.make_module(run, "c01wit")
+    plans = {}
+    for k, f in enumerate(run.findings()):
+        lay = witness_layout(f.get("witness") or {}, k)
+        if lay:
+            plans[f["id"]] = (k, lay)
+            l2.write_files(mod, lay[0])
+
+    def go(item):
+        fid, (k, (files, steps)) = item
+        rs = [l2.run_shoot(shoot, mod / d, args, timeout=20) for d, args in steps]
+        return fid, rs
+    with cf.ThreadPoolExecutor(max_workers=6) as ex:
+        results = dict(ex.map(go, plans.items()))
+    ok, errs = l2.go_build(mod)
+    out = {}
+    for fid, (k, (files, steps)) in plans.items():
+        rs = results[fid]
+        bad_build = any(("/w%02d/" % k) in (key + "/") or key.endswith("/w%02d" % k) for key in errs)
+        if any(r["timed_out"] or r["panicked"] for r in rs):
+            out[fid] = "buggy"
+        elif rs[-1]["rc"] != 0:
+            # shoot failing while formatting what it generated is the defect (exit 1 on an input of the grammar);
+            # a refusal with a diagnostic of its own is a legitimate repair of a class that cannot be generated
+            out[fid] = "buggy" if "format source" in rs[-1]["err"] else "correct"
+        else:
+            out[fid] = "buggy" if bad_build else "correct"
+    return out
 
 
 def main(run):
     proof_ok = run.prove("Properties/C01.v", ["Corr/GoWfCorr.v"])
     shoot = run.build_shoot()
     declsig = run.build_helper("declsig")
-    wh = witness_handler(run, shoot)
-    handlers = {f["id"]: wh for f in run.findings() if "witness" in f and ("pkg" in f["witness"] or "files" in f["witness"])}
-    outcome = run.replay_findings(handlers)
+    wout = replay_witnesses(run, shoot)
+    outcome = run.replay_findings({fid: (lambda e, o=o: o) for fid, o in wout.items()})
     bit_fixed = outcome.get("K_bit_map") == "correct"
 
     per = (220 if run.thorough() else 36)
@@ -216,7 +374,9 @@ def main(run):
     run.log("packages: %d" % len(pkgs))
     cases, rendered, mod = exercise(run, shoot, declsig, pkgs, bit_fixed)
     run.log("runs: %d" % len(cases))
-    mism = evaluate(run, rendered)
+    mism_all = evaluate(run, rendered)
+    outside = [idx for idx, v in mism_all if v // 10 == 9]
+    mism = [(idx, v) for idx, v in mism_all if v // 10 != 9]
     for idx, v in mism[:5]:
         c = cases[idx]
         verdict, comp = v // 10, v % 10
@@ -227,7 +387,8 @@ def main(run):
                        "package": c["pkg"].name, "sources": c["pkg"].files, "extra": c["pkg"].extra,
                        "command": "shoot " + " ".join(c["obs"]["args"]), "observed": c["obs"],
                        "go_build_ok": c["build_ok"], "gofmt_clean": c["gofmt_ok"], "build_errors": c["build_errors"],
-                       "coq_case": rendered[idx]}, no_input=(verdict != 2))
+                       "dir": c["pkg"].dir, "coq_case": rendered[idx][0], "coq_data": [list(x) for x in rendered[idx][1]]},
+                      no_input=(verdict != 2))
     if not proof_ok and not mism:
         run.proof_failure_violation()
 
@@ -256,6 +417,7 @@ def main(run):
         "traces_validated_against_impl": len(cases),
         "selection_modes": modes, "subcommands": cmds, "features": feats,
         "exit_nonzero_cases": sum(1 for c in cases if c["obs"]["rc"] != 0),
+        "cases_outside_the_guards_not_compared": len(outside),
         "findings_measured": outcome,
         "samples": [{"package": c["pkg"].name, "command": "shoot " + " ".join(c["obs"]["args"]),
                      "written": c["obs"]["written"], "go_build_ok": c["build_ok"], "gofmt_clean": c["gofmt_ok"],
@@ -285,11 +447,11 @@ def replay(run, path):
         return 0
     shoot = run.build_shoot()
     declsig = run.build_helper("declsig")
-    m = re.search(r"c_data := (\[.*?\]); c_bit_fixed := (true|false)", r["coq_case"], re.S)
-    pkg = Pkg(r["package"], r["sources"], [(r["observed"]["args"], [m.group(1)[1:-1]] if m.group(1) != "[]" else [])],
-              extra=r.get("extra"))
-    cases, rendered, mod = exercise(run, shoot, declsig, [pkg], m.group(2) == "true", modname="c01replay")
-    mism = evaluate(run, rendered)
+    pkg = Pkg(r["package"], r["sources"], [(r["observed"]["args"], [tuple(x) for x in r["coq_data"]])],
+              extra=r.get("extra"), dir=r.get("dir"))
+    bitfix = "c_bit_fixed := true" in r["coq_case"]
+    cases, rendered, mod = exercise(run, shoot, declsig, [pkg], bitfix, modname="c01mod")
+    mism = [(i, v) for i, v in evaluate(run, rendered) if v // 10 != 9]
     print("observed:", json.dumps(cases[0]["obs"]), "build_ok:", cases[0]["build_ok"], "verdict:", mism)
     if mism:
         print("VIOLATION property=C01 replay=%s" % path)
